@@ -403,6 +403,26 @@ def run(prop, tier):
         "samples": samples or [{"instance": results[0]["text"]}],
     }
     if prop == "C05":
+        # molecules generated from MIRRORS, one after the other in this process: the tokens written once (prefix, suffix) are in the molecule, whole, and nothing of
+        # another molecule's tokens is (the repeat units of these inputs are all-carbon, so the hetero atoms of the result are those of its own prefix and suffix)
+        import numpy as _np
+        g_ = common.import_repo()
+        seq_ = [("CCN{[>][<]CC(C)[>][<]}|gauss(60, 5)|CCl", ["Cl", "N"]), ("CCO{[>][<]CC(C)[>][<]}|gauss(60, 5)|CF", ["F", "O"]),
+                ("CCN{[>][<]CC(C)[>][<]}|gauss(60, 5)|CCl", ["Cl", "N"]), ("SC{[>][<]CC[>][<]}|gauss(50, 5)|CBr", ["Br", "S"])]
+        n_mir = 0
+        for text_, het_ in seq_:
+            try:
+                mir_ = g_.Molecule(text_).gen_mirror()
+                mg_ = mir_.generate(rng=_np.random.default_rng(3 + common.seed()))
+                got_ = sorted(a.GetSymbol() for a in mg_.mol.GetAtoms() if a.GetSymbol() != "C")
+            except Exception as exc:
+                v.notes.append(f"mirror of {text_} could not be generated ({type(exc).__name__}); not a clause of C05")
+                continue
+            n_mir += 1
+            if got_ != het_:
+                v.violation("C05:mirror:residues-are-not-copies-of-the-written-tokens", f"mirror of {text_!r} generates {mg_.smiles!r}: hetero atoms {got_}, its prefix and suffix have {het_} "
+                                                                                         f"(molecules generated from mirrors one after the other in one process)", {"text": text_})
+        v.coverage["molecules_generated_from_mirrors_in_sequence"] = n_mir
         # residue numbering (spec/Residues.tla; not a clause of C05: differences are divergences in the evidence)
         from . import residues as RS
         rdiv, rcov = RS.run(common.import_repo(), I.core_instances() + I.extra_instances(), seed=common.seed())
